@@ -86,10 +86,11 @@ CHECKS = {
             "The Scope functions are a transcription of find/update_data/set_data; the tie is differential (every task's data after every operation). `code` scripts and "
             "{{template}} readers are outside this fragment (C14). The generator keeps each name declared by at most one enclosing scope, as the property quantifies.", "5 C07"),
     "C11": ("Lean 4 K1 theorems over translated tables (the task event writes the row before hooks and message; task and process rows have a column for every compared "
-            "item; both back ends keep every column) + differential monitor: the live process (dump without reload) against the stored procs/tasks rows after every operation "
+            "item; both back ends keep every column; every known write site outside a task event is followed by its row write) and the K3 write-through theorem "
+            "(persisted writes keep store = live over any sequence; an unpersisted write lags) + differential monitor: the live process (dump without reload) against the stored procs/tasks rows after every operation "
             "of generated runs, on the in-memory and the SQLite back end",
-            "Proof-level content is limited to what a row can hold and the order inside the task event. That every in-memory write is followed by a row write before the next "
-            "quiescent point is a whole-program discipline decided by the image comparison on the engine, not proved. `$params` (a recomputable memo) is excluded.", "5 C11"),
+            "Proved: what a row can hold, the order inside the task event, and that the listed write sites persist (the list is read from the source). That the list of sites is "
+            "complete is a whole-program fact decided by the image comparison on the engine, not proved. `$params` (a recomputable memo) is excluded.", "5 C11"),
     "C12": ("Lean 4 K1 theorems over translated tables (everything the scheduler reads of a task/process is written by into_data, has a column, and is read back by "
             "load_tasks/load_proc; nodes are re-bound by id) + run-pair monitor: the same scenario uninterrupted and with 1-5 evictions (memory store) or engine restarts on "
             "the same SQLite file at quiescent points; action results, messages, events, creations, transitions, task data/outcomes/prev/hooks compared op by op",
